@@ -34,6 +34,7 @@ type WriterArgs struct {
 	Clean  bool   `json:"clean"`  // close the bucket cleanly at the end
 	DropY  bool   `json:"dropY"`  // drop collection 2 after writing to it (its lastCas disappears with it)
 	SleepAtEnd int `json:"sleepAtEnd"` // ms to idle at the end (external kill window)
+	EndMeta    bool   `json:"endMeta"`    // last write: a SetWithMeta / DeleteWithMeta carrying an old CAS into a collection that saw no other write
 	Profile    string `json:"profile"` // "" = every entry point; "withmeta" = SetWithMeta/DeleteWithMeta (multi-statement transactions) with a few plain writes
 }
 
@@ -130,6 +131,12 @@ func WriterMain(arg string) int {
 		_ = col0.Set("expiring", a.Expiry, nil, []byte(`{"will":"expire"}`))
 		_ = sim.Env.Buckets[0].Colls[0][1].Set("expiring", a.Expiry, nil, []byte(`{"will":"expire too"}`))
 	}
+	var metaOnly *rosmar.Collection
+	if a.EndMeta {
+		if ds, err := b.NamedDataStore(sgbucket.DataStoreNameImpl{Scope: "meta", Collection: "only"}); err == nil {
+			metaOnly = ds.(*rosmar.Collection)
+		}
+	}
 	emit(out, "OPENED", map[string]any{"uuid": uuid, "pid": os.Getpid()})
 	// arm the kill
 	var hits atomic.Int64
@@ -149,6 +156,10 @@ func WriterMain(arg string) int {
 	admin := AdminState{DDocs: map[string]string{"cd": ddocJSON(crashViews)}}
 	for ci := 0; ci < 3; ci++ {
 		admin.Colls = append(admin.Colls, kv.CollNames[ci].ScopeName()+"."+kv.CollNames[ci].CollectionName())
+	}
+	if metaOnly != nil {
+		admin.Colls = append(admin.Colls, "meta.only")
+		sort.Strings(admin.Colls)
 	}
 	adminN := 0
 	doAdmin := func() {
@@ -240,6 +251,20 @@ func WriterMain(arg string) int {
 		}
 		_ = b.DropDataStore(kv.CollNames[2])
 		emit(out, "DROPPED", map[string]int{"coll": 2})
+	}
+	if a.EndMeta {
+		// replicated documents with an old CAS arrive in a collection of their own as the very last writes: the
+		// bucket's persisted high-water mark must not follow them downwards
+		if metaOnly != nil {
+			ds := metaOnly
+			old := uint64(1_500_000_000_000_000_000) + a.Seed%1000
+			if a.Seed%2 == 0 {
+				_ = ds.SetWithMeta(context.Background(), "replicated", 0, old, 0, nil, []byte(`{"r":1}`), sgbucket.FeedDataTypeJSON)
+			} else {
+				_ = ds.DeleteWithMeta(context.Background(), "replicated", 0, old, 0, nil)
+			}
+			emit(out, "ENDMETA", map[string]uint64{"cas": old})
+		}
 	}
 	if a.Clean {
 		b.Close(context.Background())
